@@ -8,10 +8,15 @@ Two parts (DESIGN.md section 4.1):
      of the form d * 10^k - anything else (nan, inf, a non-number) is refused;
 (ii) the 3 x 3 flux conversions are functions of (flux, wave), so they are TRANSLATED from the
      source text of ``Photlam.to / Flam.to / Wlam.to`` by a fail-closed ``ast`` translator.  It
-     accepts only an ``if <unit>.lower() == '<name>': return <expr>`` ladder (``in [..names..]``
-     is accepted too) that ends in ``raise``, with <expr> arithmetic (+ - * / unary -, ** small
-     natural) over the flux and wave parameters, the module constants H and C and numeric
-     literals.  Anything else raises ``GenError``; the runner reports a broken tie.
+     reads: an optional ``t = <unit>.lower()``; if/elif ladders or sequences of
+     ``if <unit>.lower() == '<name>': return <expr>`` with early returns (``in [..names..]`` too)
+     ending in ``raise``; or a dict-of-lambdas dispatch ``D[<lowered>](flux, wave)``; <expr> is
+     arithmetic (+ - * / unary -, ** small natural) over the flux and wave parameters, H, C,
+     numeric literals and module-level names bound exactly once to such arithmetic.
+     Anything else is REFUSED (``GenError``).  A refusal is not an alarm: the last successfully
+     translated terms (Gen/UnitTable.terms.json) are retained, the proofs are rebuilt against
+     them and the harness validates them against the running implementation on exact rationals;
+     only a disagreement there is a violation.
 
 The module constants H, C, K are observed (``float`` -> exact binary rational).
 
@@ -85,16 +90,36 @@ def observe_wave_factors(rad):
 
 
 # ------------------------------------------------------------------ (ii) translated flux conversions
-def _names_of_test(test, unitparam):
+class _Ctx:
+    """what the translator knows while reading one to(): parameter roles, aliases of the lowered
+    target, and the module (for named numeric constants)"""
+
+    def __init__(self, rad, modtree, unitparam, env):
+        self.rad = rad
+        self.modtree = modtree
+        self.unitparam = unitparam
+        self.env = dict(env)          # python name -> 'flux' | 'wave' | 'H' | 'C'
+        self.aliases = set()          # local names bound to <unitparam>.lower()
+        self.consts = {}              # module-level named constants already translated
+        self.busy = set()
+
+
+def _is_lowered(node, ctx):
+    """node is <unitparam>.lower() or a local alias of it"""
+    if isinstance(node, ast.Name) and node.id in ctx.aliases:
+        return True
+    return (isinstance(node, ast.Call) and not node.args and not node.keywords
+            and isinstance(node.func, ast.Attribute) and node.func.attr == 'lower'
+            and isinstance(node.func.value, ast.Name) and node.func.value.id == ctx.unitparam)
+
+
+def _names_of_test(test, ctx):
     """the unit names selected by a ladder test, or GenError"""
     if not isinstance(test, ast.Compare) or len(test.ops) != 1 or len(test.comparators) != 1:
         raise GenError('ladder test is not a single comparison: ' + ast.dump(test)[:120])
     left, op, right = test.left, test.ops[0], test.comparators[0]
-    ok_left = (isinstance(left, ast.Call) and not left.args and not left.keywords
-               and isinstance(left.func, ast.Attribute) and left.func.attr == 'lower'
-               and isinstance(left.func.value, ast.Name) and left.func.value.id == unitparam)
-    if not ok_left:
-        raise GenError(f'ladder test is not on {unitparam}.lower(): ' + ast.dump(left)[:120])
+    if not _is_lowered(left, ctx):
+        raise GenError(f'ladder test is not on {ctx.unitparam}.lower(): ' + ast.dump(left)[:120])
     if isinstance(op, ast.Eq) and isinstance(right, ast.Constant) and isinstance(right.value, str):
         names = [right.value]
     elif isinstance(op, ast.In) and isinstance(right, (ast.List, ast.Tuple, ast.Set)) and right.elts and all(
@@ -108,13 +133,66 @@ def _names_of_test(test, unitparam):
     return names
 
 
-def _expr(node, env):
+def _module_const(name, ctx):
+    """a module-level name other than H, C: it must be bound exactly once, at module level, to
+    arithmetic over literals, H, C and other such names; its translation replaces the name"""
+    if name in ctx.consts:
+        return ctx.consts[name]
+    if name in ctx.busy:
+        raise GenError(f'module constant {name} is defined in terms of itself')
+    binds = []
+    for node in ast.walk(ctx.modtree):
+        if isinstance(node, (ast.Global, ast.Nonlocal)) and name in node.names:
+            raise GenError(f'module constant {name} is declared global/nonlocal somewhere')
+        tg = []
+        if isinstance(node, ast.Assign):
+            tg = node.targets
+        elif isinstance(node, (ast.AugAssign, ast.AnnAssign)):
+            tg = [node.target]
+        elif isinstance(node, (ast.For, ast.comprehension)):
+            tg = [node.target]
+        elif isinstance(node, (ast.Import, ast.ImportFrom)):
+            if any((a.asname or a.name.split('.')[0]) == name for a in node.names):
+                binds.append(None)
+        elif isinstance(node, (ast.FunctionDef, ast.ClassDef)) and node.name == name:
+            binds.append(None)
+        for t in tg:
+            for sub in ast.walk(t):
+                if isinstance(sub, ast.Name) and sub.id == name:
+                    binds.append(node)
+    top = [n for n in ctx.modtree.body if isinstance(n, ast.Assign) and len(n.targets) == 1
+           and isinstance(n.targets[0], ast.Name) and n.targets[0].id == name]
+    if len(binds) != 1 or len(top) != 1 or binds[0] is not top[0]:
+        raise GenError(f'name {name!r} is not flux, wave, H, C or a module constant bound exactly once')
+    ctx.busy.add(name)
+    sub = _Ctx(ctx.rad, ctx.modtree, ctx.unitparam, {'H': 'H', 'C': 'C'})
+    sub.consts, sub.busy = ctx.consts, ctx.busy
+    e = _expr(top[0].value, sub)
+    ctx.busy.discard(name)
+    # the running module must hold the value the definition gives
+    cs = observe_constants(ctx.rad)
+    want = eval_expr(e, Fraction(0), Fraction(1), cs['H'], cs['C'])
+    have = getattr(ctx.rad, name, None)
+    if isinstance(have, bool) or not isinstance(have, (int, float)) or not _close(have, want):
+        raise GenError(f'module constant {name} = {have!r} at run time, its definition gives {float(want)!r}')
+    ctx.consts[name] = e
+    return e
+
+
+def _close(x, fr, tol=1e-12):
+    fx = Fraction(x) if isinstance(x, int) else Fraction(*float(x).as_integer_ratio())
+    return abs(fx - fr) <= Fraction(tol).limit_denominator(10 ** 15) * max(abs(fx), abs(fr))
+
+
+def _expr(node, ctx):
     """python expression -> prefix form: ('flux',) ('wave',) ('H',) ('C',) ('lit', Fraction)
     ('add'|'sub'|'mul'|'div', a, b) ('neg', a)"""
     if isinstance(node, ast.Name):
-        if node.id in env:
-            return (env[node.id],)
-        raise GenError(f'name {node.id!r} is not flux, wave, H or C')
+        if node.id in ctx.env:
+            return (ctx.env[node.id],)
+        if node.id in ctx.aliases or node.id == ctx.unitparam:
+            raise GenError(f'the unit name {node.id!r} is used as a number')
+        return _module_const(node.id, ctx)
     if isinstance(node, ast.Constant):
         v = node.value
         if isinstance(v, bool) or not isinstance(v, (int, float)):
@@ -122,19 +200,19 @@ def _expr(node, env):
         return ('lit', decimal_of_float(v))
     if isinstance(node, ast.UnaryOp):
         if isinstance(node.op, ast.USub):
-            return ('neg', _expr(node.operand, env))
+            return ('neg', _expr(node.operand, ctx))
         if isinstance(node.op, ast.UAdd):
-            return _expr(node.operand, env)
+            return _expr(node.operand, ctx)
         raise GenError('unary operator ' + type(node.op).__name__)
     if isinstance(node, ast.BinOp):
         ops = {ast.Add: 'add', ast.Sub: 'sub', ast.Mult: 'mul', ast.Div: 'div'}
         if type(node.op) in ops:
-            return (ops[type(node.op)], _expr(node.left, env), _expr(node.right, env))
+            return (ops[type(node.op)], _expr(node.left, ctx), _expr(node.right, ctx))
         if isinstance(node.op, ast.Pow):
             e = node.right
             if (isinstance(e, ast.Constant) and isinstance(e.value, int) and not isinstance(e.value, bool)
                     and 1 <= e.value <= MAXPOW):
-                b = _expr(node.left, env)
+                b = _expr(node.left, ctx)
                 out = b
                 for _ in range(e.value - 1):
                     out = ('mul', out, b)
@@ -144,26 +222,150 @@ def _expr(node, env):
     raise GenError('expression form ' + type(node).__name__)
 
 
-def _branches(stmts, unitparam, env):
-    """the statements of a ``to`` body -> list of (names, expr); the ladder must end in raise"""
+def _is_raise(stmts):
+    return len(stmts) == 1 and isinstance(stmts[0], ast.Raise)
+
+
+def _lambda_table(node, ctx):
+    """{'name': lambda [flux[, wave]]: <arith>, ...} -> [(names, expr)]; the lambdas' parameters
+    are matched by position with (flux, wave) of the call D[target](<flux>, <wave>) checked by the caller"""
+    if not isinstance(node, ast.Dict) or not node.keys:
+        raise GenError('dispatch table is not a dict literal')
+    out = []
+    for k, v in zip(node.keys, node.values):
+        if not (isinstance(k, ast.Constant) and isinstance(k.value, str) and k.value == k.value.lower()):
+            raise GenError('dispatch table key is not a lower-case string literal')
+        if not isinstance(v, ast.Lambda):
+            raise GenError('dispatch table value is not a lambda')
+        a = v.args
+        if a.vararg or a.kwarg or a.kwonlyargs or a.defaults or a.posonlyargs or a.kw_defaults:
+            raise GenError('dispatch lambda has a non-plain parameter list')
+        out.append((k.value, [x.arg for x in a.args], v.body))
+    return out
+
+
+def _dispatch(stmts, ctx, fd):
+    """bodies of the form   [D = {...}]   return D[<lowered>](args)   possibly wrapped in
+    try/except KeyError: raise, or guarded by `if <lowered> not in D: raise`"""
+    body = list(stmts)
+    table = None
+    tname = None
+    guard_table = None
+    if body and isinstance(body[0], ast.Assign) and len(body[0].targets) == 1 and isinstance(body[0].targets[0], ast.Name) \
+            and isinstance(body[0].value, ast.Dict):
+        tname = body[0].targets[0].id
+        table = body[0].value
+        body = body[1:]
+    if len(body) == 1 and isinstance(body[0], ast.Try):
+        t = body[0]
+        if t.orelse or t.finalbody or len(t.handlers) != 1 or not _is_raise(t.handlers[0].body):
+            raise GenError('try statement around the dispatch is not `try: return ... except KeyError: raise ...`')
+        h = t.handlers[0].type
+        if not (isinstance(h, ast.Name) and h.id == 'KeyError'):
+            raise GenError('dispatch handler does not catch KeyError only')
+        body = t.body
+    elif len(body) == 2 and isinstance(body[0], ast.If) and _is_raise(body[0].body) and not body[0].orelse:
+        g = body[0].test
+        if not (isinstance(g, ast.Compare) and len(g.ops) == 1 and isinstance(g.ops[0], ast.NotIn) and _is_lowered(g.left, ctx)):
+            raise GenError('guard before the dispatch is not `if <lowered unit> not in <table>: raise`')
+        gt = g.comparators[0]
+        body = body[1:]
+        guard_table = gt
+    if not (len(body) == 1 and isinstance(body[0], ast.Return) and isinstance(body[0].value, ast.Call)):
+        return None
+    call = body[0].value
+    if call.keywords or not isinstance(call.func, ast.Subscript) or not _is_lowered(call.func.slice, ctx):
+        return None
+    ref = call.func.value
+    if isinstance(ref, ast.Name) and tname is not None and ref.id == tname:
+        pass
+    elif isinstance(ref, ast.Name) and tname is None:
+        # a module-level table bound exactly once
+        top = [n for n in ctx.modtree.body if isinstance(n, ast.Assign) and len(n.targets) == 1
+               and isinstance(n.targets[0], ast.Name) and n.targets[0].id == ref.id]
+        nb = sum(1 for n in ast.walk(ctx.modtree) if isinstance(n, ast.Name) and n.id == ref.id and isinstance(n.ctx, ast.Store))
+        if len(top) != 1 or nb != 1:
+            raise GenError(f'dispatch table {ref.id} is not a module-level name bound exactly once')
+        table = top[0].value
+    else:
+        raise GenError('dispatch does not index a local or module-level dict literal')
+    if guard_table is not None and not (isinstance(guard_table, ast.Name) and isinstance(ref, ast.Name)
+                                                                     and guard_table.id == ref.id):
+        raise GenError('guard and dispatch use different tables')
+    rows = _lambda_table(table, ctx)
+    roles = []
+    for a in call.args:
+        if not (isinstance(a, ast.Name) and a.id in ctx.env and ctx.env[a.id] in ('flux', 'wave')):
+            raise GenError('dispatch call passes something other than the flux / wave parameters')
+        roles.append(ctx.env[a.id])
+    out = []
+    for name, params, bodyexpr in rows:
+        if len(params) != len(roles):
+            raise GenError('dispatch lambda and call disagree on the number of arguments')
+        env = {k: v for k, v in ctx.env.items() if v in ('H', 'C')}
+        if not params:                       # closures over the enclosing flux / wave
+            env.update({k: v for k, v in ctx.env.items() if v in ('flux', 'wave')})
+            if tname is None:
+                raise GenError('module-level dispatch lambdas cannot close over flux / wave')
+        for prm, role in zip(params, roles):
+            if prm in ('H', 'C'):
+                raise GenError('dispatch lambda parameter shadows H or C')
+            env[prm] = role
+        sub = _Ctx(ctx.rad, ctx.modtree, ctx.unitparam, env)
+        sub.consts, sub.busy = ctx.consts, ctx.busy
+        out.append(([name], _expr(bodyexpr, sub)))
+    return out
+
+
+def _branches(stmts, ctx, fd):
+    """the statements of a ``to`` body -> list of (names, expr), first match first.
+    Accepted: docstring; `t = <unit>.lower()`; if/elif ladders and sequences of `if ...: return e`
+    (early returns), ending in `raise`; or a dict-of-lambdas dispatch"""
     body = [s for s in stmts if not (isinstance(s, ast.Expr) and isinstance(s.value, ast.Constant)
                                      and isinstance(s.value.value, str))]      # docstring
-    if len(body) != 1 or not isinstance(body[0], ast.If):
-        raise GenError('body of to() is not a single if/elif ladder')
+    while body and isinstance(body[0], ast.Assign) and len(body[0].targets) == 1 \
+            and isinstance(body[0].targets[0], ast.Name) and _is_lowered(body[0].value, ctx):
+        nm = body[0].targets[0].id
+        if nm in ctx.env or nm == ctx.unitparam:
+            raise GenError(f'alias {nm!r} of the lowered unit shadows a parameter or constant')
+        ctx.aliases.add(nm)
+        body = body[1:]
+    # no other binding of an alias anywhere in the function
+    for node in ast.walk(fd):
+        if isinstance(node, ast.Name) and isinstance(node.ctx, ast.Store) and (node.id in ctx.env or node.id == ctx.unitparam):
+            raise GenError(f'{node.id!r} is re-bound inside to()')
+    stores = [n.id for n in ast.walk(fd) if isinstance(n, ast.Name) and isinstance(n.ctx, ast.Store) and n.id in ctx.aliases]
+    if len(stores) != len(set(stores)):
+        raise GenError('an alias of the lowered unit is bound twice')
+    d = _dispatch(body, ctx, fd)
+    if d is not None:
+        return d
     out = []
-    node = body[0]
-    while True:
-        names = _names_of_test(node.test, unitparam)
-        if len(node.body) != 1 or not isinstance(node.body[0], ast.Return) or node.body[0].value is None:
-            raise GenError('ladder branch is not a single `return <expr>`')
-        out.append((names, _expr(node.body[0].value, env)))
-        rest = node.orelse
-        if len(rest) == 1 and isinstance(rest[0], ast.If):
-            node = rest[0]
-            continue
-        if len(rest) == 1 and isinstance(rest[0], ast.Raise):
-            return out
-        raise GenError('ladder does not end in `else: raise ...`')
+
+    def walk(seq):
+        """returns True when the sequence certainly ends (raise)"""
+        for k, st in enumerate(seq):
+            if isinstance(st, ast.Raise):
+                if k != len(seq) - 1:
+                    raise GenError('statements after raise')
+                return True
+            if not isinstance(st, ast.If):
+                raise GenError('body of to() has a statement that is neither `if <unit test>: return <expr>` nor raise: '
+                               + type(st).__name__)
+            names = _names_of_test(st.test, ctx)
+            if len(st.body) != 1 or not isinstance(st.body[0], ast.Return) or st.body[0].value is None:
+                raise GenError('ladder branch is not a single `return <expr>`')
+            out.append((names, _expr(st.body[0].value, ctx)))
+            if st.orelse:
+                if not walk(st.orelse):
+                    raise GenError('else branch of the ladder can fall through')
+                if k != len(seq) - 1:
+                    raise GenError('statements after a ladder that always returns or raises')
+                return True
+        return False
+    if not body or not walk(body):
+        raise GenError('ladder does not end in `raise ...`')
+    return out
 
 
 def translate_flux(rad):
@@ -172,6 +374,14 @@ def translate_flux(rad):
         v = getattr(rad, nm, None)
         if isinstance(v, bool) or not isinstance(v, (int, float)):
             raise GenError(f'module constant {nm} is not a number')
+    try:
+        modtree = ast.parse(inspect.getsource(rad))
+    except (OSError, TypeError, SyntaxError) as e:
+        raise GenError(f'no source for the module: {e}')
+    for nm in ('H', 'C'):
+        nb = sum(1 for n in ast.walk(modtree) if isinstance(n, ast.Name) and n.id == nm and isinstance(n.ctx, ast.Store))
+        if nb != 1:
+            raise GenError(f'module constant {nm} is bound {nb} times')
     tab = {}
     for cf, nf, cls in FUNITS:
         klass = getattr(rad, cls, None)
@@ -200,8 +410,8 @@ def translate_flux(rad):
         pflux, punit, pwave = params
         if len({pflux, punit, pwave, 'H', 'C'}) != 5:
             raise GenError(f'{cls}.to: parameter names clash')
-        env = {pflux: 'flux', pwave: 'wave', 'H': 'H', 'C': 'C'}
-        brs = _branches(fd.body, punit, env)
+        ctx = _Ctx(rad, modtree, punit, {pflux: 'flux', pwave: 'wave', 'H': 'H', 'C': 'C'})
+        brs = _branches(fd.body, ctx, fd)
         for ct, nt, _ in FUNITS:
             hit = [e for names, e in brs if nt in names]
             if not hit:
@@ -212,6 +422,31 @@ def translate_flux(rad):
                 if n not in FNAMES:
                     raise GenError(f'{cls}.to has a branch for the unknown unit {n!r}')
     return tab
+
+
+# ------------------------------------------------------------------ retained table (last successful translation)
+def terms_to_json(ftab):
+    def enc(e):
+        if e[0] == 'lit':
+            return ['lit', str(e[1])]
+        return [e[0]] + [enc(x) for x in e[1:]]
+    return {f'{a}>{b}': enc(e) for (a, b), e in sorted(ftab.items())}
+
+
+def terms_from_json(j):
+    def dec(e):
+        if not isinstance(e, list) or not e or e[0] not in ('flux', 'wave', 'H', 'C', 'lit', 'neg', 'add', 'sub', 'mul', 'div'):
+            raise GenError('retained table: malformed term')
+        if e[0] == 'lit':
+            return ('lit', Fraction(e[1]))
+        return tuple([e[0]] + [dec(x) for x in e[1:]])
+    out = {}
+    for k, v in j.items():
+        a, b = k.split('>')
+        out[(a, b)] = dec(v)
+    if set(out) != {(a[0], b[0]) for a in FUNITS for b in FUNITS}:
+        raise GenError('retained table: not the nine cells')
+    return out
 
 
 def gallina(e):
@@ -284,21 +519,41 @@ def render(wtab, ftab, consts):
     return '\n'.join(L)
 
 
-def generate(rad):
-    """returns (coq text, wave table, flux table, constants)"""
+def generate(rad, terms_path=None, keep=False):
+    """returns (coq text, wave table, flux table, constants, status).
+    The wavelength factors and the constants are always observed.  The flux terms are translated
+    from source; when the translator REFUSES (a form it does not read) the last successfully
+    translated terms (terms_path) are used instead and status says so - the caller must then
+    validate them against the running implementation.  keep=True writes terms_path after a
+    successful translation."""
+    import json
     wtab = observe_wave_factors(rad)
-    ftab = translate_flux(rad)
     consts = observe_constants(rad)
-    return render(wtab, ftab, consts), wtab, ftab, consts
+    try:
+        ftab = translate_flux(rad)
+        status = {'translated': True, 'reason': None}
+        if keep and terms_path:
+            txt = json.dumps(terms_to_json(ftab), indent=1, sort_keys=True) + '\n'
+            old = open(terms_path).read() if os.path.exists(terms_path) else None
+            if old != txt:
+                with open(terms_path + '.tmp', 'w') as fh:
+                    fh.write(txt)
+                os.replace(terms_path + '.tmp', terms_path)
+    except GenError as e:
+        if not terms_path or not os.path.exists(terms_path):
+            raise
+        ftab = terms_from_json(json.load(open(terms_path)))
+        status = {'translated': False, 'reason': str(e)}
+    return render(wtab, ftab, consts), wtab, ftab, consts, status
 
 
-def write(rad, path):
+def write(rad, path, terms_path=None, keep=False):
     """regenerate the table; the file is rewritten only when its text changes (keeps make quiet)"""
-    txt, wtab, ftab, consts = generate(rad)
+    txt, wtab, ftab, consts, status = generate(rad, terms_path, keep)
     old = open(path).read() if os.path.exists(path) else None
     if old != txt:
         tmp = path + '.tmp'
         with open(tmp, 'w') as fh:
             fh.write(txt)
         os.replace(tmp, path)
-    return wtab, ftab, consts
+    return wtab, ftab, consts, status
